@@ -22,7 +22,7 @@ PROPS = {
         trusted=MATCH_TRUSTED,
         assumptions=["Go map iteration order is modelled as list order after the D10 repair (sorted pattern keys)"],
         runs=[dict(component="match", require="Corr.MatchCorr", require_vo="Corr/MatchCorr.vo",
-                   n=dict(quick=900, thorough=24000), shard=700,
+                   n=dict(quick=2400, thorough=32000), shard=700,
                    evals=dict(M="mc_mismatches", V="c01_violations", NT="c01_nontrivial"),
                    counts=("NT",))],
     ),
@@ -34,7 +34,7 @@ PROPS = {
         trusted=MATCH_TRUSTED,
         assumptions=["arrays are sets; repeated variables take scalar values (C02's quantifier)"],
         runs=[dict(component="match", require="Corr.MatchCorr", require_vo="Corr/MatchCorr.vo",
-                   n=dict(quick=900, thorough=24000), shard=700, opts=dict(mode="c02"),
+                   n=dict(quick=2400, thorough=32000), shard=700, opts=dict(mode="c02"),
                    evals=dict(M="mc_mismatches", V="c02_violations", NT="c02_nontrivial", NL="c02_linear_count"),
                    counts=("NT", "NL"))],
     ),
@@ -49,7 +49,7 @@ PROPS = {
                                  "(race detector on the schedules that happen), not proved (partial)"],
         assumptions=["an order oracle is a deterministic function of the list it permutes"],
         runs=[dict(component="match", require="Corr.MatchCorr", require_vo="Corr/MatchCorr.vo",
-                   n=dict(quick=900, thorough=24000), shard=700, opts=dict(mode="c03"),
+                   n=dict(quick=2400, thorough=32000), shard=700, opts=dict(mode="c03"),
                    evals=dict(M="mc_mismatches", V="c03_violations")),
               dict(component="matchconc", require="Corr.MatchCorr", require_vo="Corr/MatchCorr.vo", race=True,
                    n=dict(quick=150, thorough=3000), shard=700,
@@ -66,7 +66,7 @@ ENGINE_TRUSTED = [
     "goja (evaluation of the rendered programs), encoding/json; error texts normalised to one token; traces not modelled",
 ]
 
-def step_run(mode, M, V, NT=None, n=(600, 12000), extra=None):
+def step_run(mode, M, V, NT=None, n=(1800, 24000), extra=None):
     evals = dict(M=M, V=V)
     counts = ()
     if NT:
